@@ -393,6 +393,7 @@ class EnvSim:
         if self.seed % 4 == 0 and isinstance(arr, np.ndarray) and \
                 arr.flags.writeable:
             arr[...] = 9.0
+            self.scribbled = True     # env.last_obs may alias what we wrote
             self.counters.hit("fault.caller_writes_into_returned_obs")
 
     def resolve(self, op):
